@@ -200,7 +200,13 @@ options:
                 }
             }
             Short('j') => args.options.parallelism = parser.value()?.parse()?,
-            Short('k') => args.options.failures_left = Some(parser.value()?.parse()?),
+            Short('k') => {
+                // As in Ninja, 0 means no limit on the number of failures.
+                args.options.failures_left = match parser.value()?.parse()? {
+                    0 => None,
+                    n => Some(n),
+                };
+            }
             Short('v') => args.verbose = true,
 
             Long("version") => {
